@@ -13,10 +13,13 @@
                       4 = M3Client.EmitMetricBatchV2 (ints: common tags set?, sequence id),
                       5 = a metric pre-built by the real m3 reporter (AllocateCounter/Gauge/Timer,
                           read out by reflection) with the value and timestamp it is later reported with
+                      6 = a structure measured by the real m3 reporter (calculateSize) while several
+                          goroutines were allocating on it at once
               a metric is ints [type; count; gauge bits; timer; timestamp; tags set?] and
               strings name :: k1 :: v1 :: k2 :: v2 ...
    observed = per operation 1/2/4: ints [calc size], strings [encoded bytes];
               per operation 5: ints [size kept by the reporter; calc size of the reported metric], strings [bytes of the reported metric].
+              per operation 6: ints [size recorded by the reporter], strings [bytes the encoder writes for it].
    check codes: 1 bytes differ, 2 calc size differs, 3 the model decoder does not return the input
    from the observed bytes, 4 pre-built metric is not [placeholder], 5 reported metric larger than
    the measured size, 6 malformed case. *)
@@ -137,6 +140,17 @@ Definition step (e o : ev) (pend : list metric) (ps : PS P) : Z * PS P :=
             if negb (c =? 0) then (c, snd st)
             else if rsize <? get_count (fst st) then (5, snd st) else (0, snd st)
     | _, _, _ => (6, ps)
+    end
+  else if k =? 6 then
+    (* a structure measured by the real reporter while several goroutines were allocating:
+       it is a pre-built counter/gauge/timer (histogram buckets are counters with the bucket
+       tags appended), the size the reporter recorded for it must be the model's calc size,
+       and the observed bytes are the real encoder's for that same structure *)
+    match metric_of_ev e with
+    | Some pm =>
+        if negb (metric_eqb pm (placeholder (mtype (mval pm)) (mname pm) (mtags pm))) then (4, ps)
+        else let st := wr_metric P pm (tr0, ps) in (cmp_write st (dec_metric_ok pm) o, snd st)
+    | None => (6, ps)
     end
   else (6, ps).
 
